@@ -152,6 +152,11 @@ func (p *Proxy) handleRangeRequest(r responder.Responder, req *http.Request, cac
 
 		data, header, status := fetched.getResponse()
 		defer data.Close()
+		if fetched.Type == fetchTypeCached {
+			// A stored entry is always a complete 200 response. Its UpstreamStatus is the status of the
+			// upstream exchange that produced this result (none for a hit, 304 after a revalidation).
+			status = http.StatusOK
+		}
 
 		r.SetHeaders(header)
 		return finalizeAndRespond(r, data, status, req)
